@@ -7,6 +7,18 @@ pub mod verif_access {
     pub fn history_set(h: &mut HistoryTable, player: Player, mv: Move, v: i32) {
         h.0[player.array_idx()][mv.src().array_idx()][mv.dst().array_idx()] = v;
     }
+    /// a history table with arbitrary content (nondeterministic under Kani)
+    #[cfg(kani)]
+    pub fn history_any() -> HistoryTable {
+        let mut h = HistoryTable::new();
+        let p: usize = kani::any();
+        let a: usize = kani::any();
+        let b: usize = kani::any();
+        kani::assume(p < 2 && a < 64 && b < 64);
+        // one arbitrary cell holds an arbitrary score; which cell is symbolic, so every cell is covered
+        h.0[p][a][b] = kani::any();
+        h
+    }
     pub fn history_cell(h: &HistoryTable, p: usize, a: usize, b: usize) -> i32 { h.0[p][a][b] }
     pub fn killers_raw(k: &KillersTable, ply: usize) -> [Option<Move>; 2] { k.0[ply] }
     pub fn counter_raw(c: &CountermoveTable, p: usize, a: usize, b: usize) -> Option<Move> { c.0[p][a][b] }
